@@ -144,6 +144,9 @@ pub struct FrameO {
     /// blake3 prefix of the canonical payload, "err:.." when unreadable, "-" when not active
     pub content: String,
     pub uri: String,
+    /// hex of the payload checksum the frame table records
+    #[serde(default)]
+    pub sum: String,
 }
 
 #[derive(Clone, Debug, PartialEq, Eq, Serialize, Deserialize)]
@@ -195,7 +198,7 @@ pub fn observe(mem: &mut Memvid, tokens: &[String]) -> Obs {
         } else {
             "-".to_string()
         };
-        frames.push(FrameO { id: f.id, status, content, uri: f.uri.clone().unwrap_or_default() });
+        frames.push(FrameO { id: f.id, status, content, uri: f.uri.clone().unwrap_or_default(), sum: hex::encode(f.checksum) });
     }
     let mut search = BTreeMap::new();
     for t in tokens {
@@ -408,10 +411,10 @@ fn child_open(list_file: &str) {
 // abstract syscalls + file-system simulation
 
 #[derive(Clone, Debug, PartialEq, Eq)]
-pub enum Sys {
+pub enum SysT<T> {
     /// directory entry `name` now refers to the fresh inode `ino`
     Create { name: String, ino: usize },
-    Write { ino: usize, off: u64, data: Vec<u8> },
+    Write { ino: usize, off: u64, data: Vec<T> },
     Trunc { ino: usize, len: u64 },
     Fsync { ino: usize },
     Rename { from: String, to: String },
@@ -419,37 +422,44 @@ pub enum Sys {
     FsyncDir,
     Mark(String),
 }
+/// byte level (what strace recorded)
+pub type Sys = SysT<u8>;
+/// symbolic level: one cell per byte, (object id << 32) | index inside the object; 0 = a zero byte
+pub type SysC = SysT<u64>;
 
-impl Sys {
-    pub fn is_mutation(&self) -> bool { !matches!(self, Sys::Mark(_)) }
+impl<T> SysT<T> {
+    pub fn is_mutation(&self) -> bool { !matches!(self, SysT::Mark(_)) }
     pub fn brief(&self) -> String {
         match self {
-            Sys::Create { name, ino } => format!("create({name})=i{ino}"),
-            Sys::Write { ino, off, data } => format!("pwrite(i{ino},{off},{})", data.len()),
-            Sys::Trunc { ino, len } => format!("ftruncate(i{ino},{len})"),
-            Sys::Fsync { ino } => format!("fsync(i{ino})"),
-            Sys::Rename { from, to } => format!("rename({from},{to})"),
-            Sys::Unlink { name } => format!("unlink({name})"),
-            Sys::FsyncDir => "fsyncdir".into(),
-            Sys::Mark(m) => format!("mark({m})"),
+            SysT::Create { name, ino } => format!("create({name})=i{ino}"),
+            SysT::Write { ino, off, data } => format!("pwrite(i{ino},{off},{})", data.len()),
+            SysT::Trunc { ino, len } => format!("ftruncate(i{ino},{len})"),
+            SysT::Fsync { ino } => format!("fsync(i{ino})"),
+            SysT::Rename { from, to } => format!("rename({from},{to})"),
+            SysT::Unlink { name } => format!("unlink({name})"),
+            SysT::FsyncDir => "fsyncdir".into(),
+            SysT::Mark(m) => format!("mark({m})"),
         }
     }
 }
 
 #[derive(Clone, Debug)]
-pub enum UOp {
-    Write { off: u64, data: Vec<u8> },
+pub enum UOp<T> {
+    Write { off: u64, data: Vec<T> },
     Trunc { len: u64 },
 }
 
-#[derive(Clone, Debug, Default)]
-pub struct Inode {
+#[derive(Clone, Debug)]
+pub struct Inode<T> {
     /// volatile content (what a process crash leaves)
-    pub data: Vec<u8>,
+    pub data: Vec<T>,
     /// content as of the last fsync of this inode
-    pub durable: Vec<u8>,
+    pub durable: Vec<T>,
     /// writes since that fsync, in order
-    pub unsynced: Vec<UOp>,
+    pub unsynced: Vec<UOp<T>>,
+}
+impl<T> Default for Inode<T> {
+    fn default() -> Self { Inode { data: vec![], durable: vec![], unsynced: vec![] } }
 }
 
 #[derive(Clone, Debug)]
@@ -459,21 +469,26 @@ pub enum DirOp {
     Unlink { name: String },
 }
 
-#[derive(Clone, Debug, Default)]
-pub struct FsSim {
-    pub inodes: Vec<Inode>,
+#[derive(Clone, Debug)]
+pub struct FsSimT<T> {
+    pub inodes: Vec<Inode<T>>,
     pub dir: BTreeMap<String, usize>,
     pub durable_dir: BTreeMap<String, usize>,
     /// directory operations not yet covered by a directory fsync (in order)
     pub pending_dir: Vec<DirOp>,
 }
+impl<T> Default for FsSimT<T> {
+    fn default() -> Self { FsSimT { inodes: vec![], dir: BTreeMap::new(), durable_dir: BTreeMap::new(), pending_dir: vec![] } }
+}
+pub type FsSim = FsSimT<u8>;
+pub type CellSim = FsSimT<u64>;
 
-fn apply_write(buf: &mut Vec<u8>, off: u64, data: &[u8]) {
+fn apply_write<T: Clone + Default>(buf: &mut Vec<T>, off: u64, data: &[T]) {
     let off = off as usize;
     if buf.len() < off + data.len() {
-        buf.resize(off + data.len(), 0);
+        buf.resize(off + data.len(), T::default());
     }
-    buf[off..off + data.len()].copy_from_slice(data);
+    buf[off..off + data.len()].clone_from_slice(data);
 }
 
 fn apply_dirop(dir: &mut BTreeMap<String, usize>, op: &DirOp) {
@@ -492,10 +507,10 @@ fn apply_dirop(dir: &mut BTreeMap<String, usize>, op: &DirOp) {
     }
 }
 
-impl FsSim {
+impl<T: Clone + Default> FsSimT<T> {
     /// a directory holding the given files, everything durable
-    pub fn with_files(files: &[(String, Vec<u8>)]) -> FsSim {
-        let mut fs = FsSim::default();
+    pub fn with_files(files: &[(String, Vec<T>)]) -> FsSimT<T> {
+        let mut fs = FsSimT::default();
         for (n, d) in files {
             let ino = fs.inodes.len();
             fs.inodes.push(Inode { data: d.clone(), durable: d.clone(), unsynced: vec![] });
@@ -504,31 +519,32 @@ impl FsSim {
         }
         fs
     }
-    pub fn apply(&mut self, s: &Sys) {
+    pub fn apply(&mut self, s: &SysT<T>) {
         match s {
-            Sys::Create { name, ino } => {
+            SysT::Create { name, ino } => {
                 while self.inodes.len() <= *ino {
                     self.inodes.push(Inode::default());
                 }
                 self.dir.insert(name.clone(), *ino);
                 self.pending_dir.push(DirOp::Create { name: name.clone(), ino: *ino });
             }
-            Sys::Write { ino, off, data } => {
+            SysT::Write { ino, off, data } => {
                 let n = &mut self.inodes[*ino];
                 apply_write(&mut n.data, *off, data);
                 n.unsynced.push(UOp::Write { off: *off, data: data.clone() });
             }
-            Sys::Trunc { ino, len } => {
+            SysT::Trunc { ino, len } => {
                 let n = &mut self.inodes[*ino];
-                n.data.resize(*len as usize, 0);
+                n.data.resize(*len as usize, T::default());
                 n.unsynced.push(UOp::Trunc { len: *len });
             }
-            Sys::Fsync { ino } => {
+            SysT::Fsync { ino } => {
                 let n = &mut self.inodes[*ino];
                 n.durable = n.data.clone();
                 n.unsynced.clear();
                 // fsync of a file also persists the directory entry created for it (ext4/xfs/btrfs
-                // behaviour; stated as an assumption of the Disk machine) — not renames/unlinks
+                // behaviour; the Lean Disk machine states this as a hypothesis `ddir p = some j` of the
+                // durability theorems) — not renames/unlinks
                 let mut keep = vec![];
                 for op in std::mem::take(&mut self.pending_dir) {
                     match &op {
@@ -538,32 +554,32 @@ impl FsSim {
                 }
                 self.pending_dir = keep;
             }
-            Sys::Rename { from, to } => {
+            SysT::Rename { from, to } => {
                 let op = DirOp::Rename { from: from.clone(), to: to.clone() };
                 apply_dirop(&mut self.dir, &op);
                 self.pending_dir.push(op);
             }
-            Sys::Unlink { name } => {
+            SysT::Unlink { name } => {
                 let op = DirOp::Unlink { name: name.clone() };
                 apply_dirop(&mut self.dir, &op);
                 self.pending_dir.push(op);
             }
-            Sys::FsyncDir => {
+            SysT::FsyncDir => {
                 self.durable_dir = self.dir.clone();
                 self.pending_dir.clear();
             }
-            Sys::Mark(_) => {}
+            SysT::Mark(_) => {}
         }
     }
     /// process-crash survivor of `name`
-    pub fn file(&self, name: &str) -> Option<&[u8]> {
+    pub fn file(&self, name: &str) -> Option<&[T]> {
         self.dir.get(name).map(|i| self.inodes[*i].data.as_slice())
     }
     pub fn names(&self) -> Vec<String> { self.dir.keys().cloned().collect() }
 
-    /// one power-loss survivor of `name`.  `choice` drives: which directory version, which subset of
-    /// the un-fsynced writes survives (mode), whether the last surviving write is torn.
-    pub fn power_survivor(&self, name: &str, mode: &PowerChoice) -> Option<Vec<u8>> {
+    /// one power-loss survivor of `name`.  `mode` drives: which directory version, which subset of
+    /// the un-fsynced writes survives, whether the last surviving write is torn.
+    pub fn power_survivor(&self, name: &str, mode: &PowerChoice) -> Option<Vec<T>> {
         // directory: durable + a prefix of the pending directory operations
         let mut dir = self.durable_dir.clone();
         for op in self.pending_dir.iter().take(mode.dir_prefix.min(self.pending_dir.len())) {
@@ -587,7 +603,7 @@ impl FsSim {
                         apply_write(&mut buf, *off, data);
                     }
                 }
-                UOp::Trunc { len } => buf.resize(*len as usize, 0),
+                UOp::Trunc { len } => buf.resize(*len as usize, T::default()),
             }
         }
         Some(buf)
@@ -595,6 +611,7 @@ impl FsSim {
     pub fn unsynced_count(&self, name: &str) -> usize {
         self.dir.get(name).map(|i| self.inodes[*i].unsynced.len()).unwrap_or(0)
     }
+    pub fn pending_dir_count(&self) -> usize { self.pending_dir.len() }
 }
 
 /// which un-fsynced writes survive a power loss
@@ -645,6 +662,9 @@ pub struct Recording {
     pub raw_lines: usize,
     /// problems seen while parsing (unknown fd, unparsable line on our directory, …)
     pub warnings: Vec<String>,
+    /// op index of a Write whose bytes were copied from (inode, offset) of the simulated state right
+    /// before it (copy_file_range, or a read immediately followed by a write of the same bytes)
+    pub copies: BTreeMap<usize, (usize, u64)>,
 }
 
 fn unescape(s: &str) -> Vec<u8> {
@@ -730,7 +750,7 @@ fn split_call(line: &str) -> Option<(String, String, i64)> {
     Some((name, args, ret))
 }
 
-pub fn parse_strace(log: &str, dir: &Path, initial: FsSim) -> (Vec<Sys>, Vec<String>, usize) {
+pub fn parse_strace(log: &str, dir: &Path, initial: FsSim) -> (Vec<Sys>, Vec<String>, usize, BTreeMap<usize, (usize, u64)>) {
     let dir_s = dir.to_string_lossy().to_string();
     let mut warnings = vec![];
     let mut ops: Vec<Sys> = vec![];
@@ -739,6 +759,8 @@ pub fn parse_strace(log: &str, dir: &Path, initial: FsSim) -> (Vec<Sys>, Vec<Str
     let mut ofds: Vec<Ofd> = vec![];
     let mut unfinished: BTreeMap<String, String> = BTreeMap::new(); // pid -> partial line
     let mut raw = 0usize;
+    let mut copies: BTreeMap<usize, (usize, u64)> = BTreeMap::new();
+    let mut last_read: Option<(usize, u64, Vec<u8>)> = None; // (inode, offset, bytes) of the last read on a memory file
     for line in log.lines() {
         raw += 1;
         let (pid, rest) = match line.split_once(' ') {
@@ -859,6 +881,12 @@ pub fn parse_strace(log: &str, dir: &Path, initial: FsSim) -> (Vec<Sys>, Vec<Str
             "read" | "pread64" => {
                 if ret <= 0 || name == "pread64" { continue; }
                 if let Some(o) = fd_num(&a[0]).and_then(|fd| fds.get(&fd).copied()) {
+                    if let (Some(ino), true) = (ofds[o].ino, ret >= 64) {
+                        if let Some(mut d) = a.get(1).and_then(|x| quoted(x)) {
+                            d.truncate(ret as usize);
+                            last_read = Some((ino, ofds[o].offset, d));
+                        }
+                    }
                     ofds[o].offset += ret as u64;
                 }
             }
@@ -890,6 +918,10 @@ pub fn parse_strace(log: &str, dir: &Path, initial: FsSim) -> (Vec<Sys>, Vec<Str
                     ofds[o].offset
                 };
                 if name == "write" { ofds[o].offset = off + data.len() as u64; }
+                if let Some((rino, roff, rdata)) = &last_read {
+                    if *rdata == data { copies.insert(ops.len(), (*rino, *roff)); }
+                }
+                last_read = None;
                 let s = Sys::Write { ino, off, data };
                 sim.apply(&s);
                 ops.push(s);
@@ -979,6 +1011,7 @@ pub fn parse_strace(log: &str, dir: &Path, initial: FsSim) -> (Vec<Sys>, Vec<Str
                     if let Some(ino_out) = ofds[oo].ino {
                         let dst_off = out_off_explicit.unwrap_or(ofds[oo].offset);
                         if out_off_explicit.is_none() { ofds[oo].offset += n; }
+                        if let Some(ino_in) = oin.and_then(|o| ofds[o].ino) { copies.insert(ops.len(), (ino_in, src_off)); }
                         let data = match oin.and_then(|o| ofds[o].ino) {
                             Some(ino_in) => {
                                 let d = &sim.inodes[ino_in].data;
@@ -1005,7 +1038,7 @@ pub fn parse_strace(log: &str, dir: &Path, initial: FsSim) -> (Vec<Sys>, Vec<Str
             _ => {}
         }
     }
-    (ops, warnings, raw)
+    (ops, warnings, raw, copies)
 }
 
 pub const STRACE_SET: &str = "trace=open,openat,creat,close,lseek,read,write,pwrite64,writev,pwritev,ftruncate,fsync,fdatasync,rename,renameat,renameat2,link,linkat,unlink,unlinkat,copy_file_range,sendfile,fallocate,dup,dup2,dup3,fcntl";
@@ -1030,12 +1063,12 @@ pub fn record(exe: &Path, args: &[String], dir: &Path, initial: FsSim, scratch: 
         let _ = std::fs::copy(&log, "/tmp/mvcrash-last.log");
     }
     let _ = std::fs::remove_file(&log);
-    let (ops, warnings, raw_lines) = parse_strace(&text, dir, initial.clone());
+    let (ops, warnings, raw_lines, copies) = parse_strace(&text, dir, initial.clone());
     Ok(Recording {
         ops, initial,
         stdout: String::from_utf8_lossy(&out.stdout).to_string(),
         exit_ok: out.status.success(),
-        log_bytes, raw_lines, warnings,
+        log_bytes, raw_lines, warnings, copies,
     })
 }
 
@@ -1102,19 +1135,41 @@ pub struct RefModel {
     pub frames: Vec<RefFrame>,
 }
 
+/// frames a put of `p` creates: the document frame and, for a chunked document, its chunk frames
+/// (chunk plan from the repo's own planner via the verif hook; content of a chunked UTF-8 document
+/// reads back as the concatenation of its chunks = the normalised text)
+fn frames_of_put(kind: u8, p: &[u8], token: Option<String>) -> Vec<RefFrame> {
+    let plan = memvid_core::verif_hooks::put_chunk_plan(p, None).unwrap_or(None);
+    let mut v = vec![];
+    match plan {
+        Some(chunks) => {
+            let doc = if std::str::from_utf8(p).is_ok() { b3hex(chunks.concat().as_bytes()) } else { b3hex(p) };
+            v.push(RefFrame { status: 'a', content: doc, token: None });
+            for c in &chunks {
+                v.push(RefFrame { status: 'a', content: b3hex(c.as_bytes()), token: None });
+            }
+        }
+        None => v.push(RefFrame { status: 'a', content: b3hex(p), token: if kind == 0 { token } else { None } }),
+    }
+    v
+}
+
 impl RefModel {
     pub fn apply(&mut self, op: &HOp) {
         match op {
             HOp::Put { kind, len, seed } => {
                 let p = payload(*kind, *len, *seed);
-                self.frames.push(RefFrame { status: 'a', content: b3hex(&p), token: if *kind == 0 { Some(token_of(*seed)) } else { None } });
+                self.frames.extend(frames_of_put(*kind, &p, Some(token_of(*seed))));
             }
             HOp::Update { id, kind, len, seed } => {
                 if let Some(f) = self.frames.get_mut(*id as usize) {
                     if f.status == 'a' {
                         f.status = 's';
+                        // update_frame inherits the old frame's search text: the successor is found
+                        // under the OLD token (by design of update_frame, not a crash matter)
+                        let tok = f.token.clone();
                         let p = payload(*kind, *len, *seed);
-                        self.frames.push(RefFrame { status: 'a', content: b3hex(&p), token: if *kind == 0 { Some(token_of(*seed)) } else { None } });
+                        self.frames.extend(frames_of_put(0, &p, tok));
                     }
                 }
             }
@@ -1148,7 +1203,9 @@ pub fn all_tokens(ops: &[HOp]) -> Vec<String> {
     let mut v = vec![];
     for o in ops {
         match o {
-            HOp::Put { kind: 0, seed, .. } | HOp::Update { kind: 0, seed, .. } => v.push(token_of(*seed)),
+            // documents above the chunking threshold are found through their chunks: not part of the
+            // search sanity check
+            HOp::Put { kind: 0, seed, len } if *len < 2000 => v.push(token_of(*seed)),
             _ => {}
         }
     }
@@ -1467,6 +1524,10 @@ pub struct CrashEval {
     /// distinct images (by content) and the observation of the real open on each
     pub images: Vec<Vec<u8>>,
     pub obs: Vec<OpenResult>,
+    /// symbolic twin of every distinct image (RLE) and the object lines needed before asking about it
+    pub cell_rle: Vec<String>,
+    pub obj_upto: Vec<usize>,
+    pub labeller: Labeller,
 }
 
 pub fn inflight_name(spans: &[StepSpan], k: usize) -> String {
@@ -1476,23 +1537,332 @@ pub fn inflight_name(spans: &[StepSpan], k: usize) -> String {
 pub fn eval_process_crashes(exe: &Path, scratch: &Path, history: &[HOp], rec: &Recording, twice: bool) -> CrashEval {
     let tokens = all_tokens(history);
     let spans = step_spans(&rec.ops);
-    let pts = process_crash_points(rec);
+    let mut lab = Labeller::new(&rec.initial);
     let mut images: Vec<Vec<u8>> = vec![];
+    let mut cell_rle: Vec<String> = vec![];
+    let mut obj_upto: Vec<usize> = vec![];
     let mut index: BTreeMap<String, usize> = BTreeMap::new();
-    let mut which = vec![];
-    for (_, img) in &pts {
-        let h = format!("{}-{}", b3hex(img), img.len());
-        let idx = *index.entry(h).or_insert_with(|| {
-            images.push(img.clone());
-            images.len() - 1
-        });
-        which.push(idx);
+    let mut pts: Vec<(usize, usize)> = vec![];
+    for i in 0..rec.ops.len() {
+        lab.step(rec, i);
+        if rec.ops[i].is_mutation() {
+            if let Some(img) = lab.bytes.file(FILE_NAME) {
+                let h = format!("{}-{}", b3hex(img), img.len());
+                let idx = match index.get(&h) {
+                    Some(x) => *x,
+                    None => {
+                        images.push(img.to_vec());
+                        cell_rle.push(rle_cells(lab.cells.file(FILE_NAME).unwrap_or(&[])));
+                        obj_upto.push(lab.obj_lines.len());
+                        index.insert(h, images.len() - 1);
+                        images.len() - 1
+                    }
+                };
+                pts.push((i + 1, idx));
+            }
+        }
     }
     let obs = open_images(exe, scratch, &images, &tokens, twice);
     let mut points = vec![];
-    for ((k, _), idx) in pts.iter().zip(which.iter()) {
+    for (k, idx) in &pts {
         let v = judge(history, &spans, *k, &obs[*idx].first, &tokens);
         points.push(PointResult { k: *k, image: *idx, inflight: inflight_name(&spans, *k), verdict: v });
     }
-    CrashEval { points, images, obs }
+    CrashEval { points, images, obs, cell_rle, obj_upto, labeller: lab }
+}
+
+/// ask the Lean model what `open` does on every distinct image; returns the normalised answers
+pub fn model_predictions(ask: &mut dyn FnMut(&str) -> String, ev: &CrashEval) -> Vec<String> {
+    let _ = ask("reset");
+    let mut sent = 0usize;
+    let mut out = vec![];
+    for (i, rle) in ev.cell_rle.iter().enumerate() {
+        // objects created later may be referenced by nothing in this image, but footers/TOCs written by
+        // later steps never are: send everything known when the image was taken — and, because a TOC may
+        // be described after the image that first contains its cells, everything up to the end is safe too
+        let upto = ev.labeller.obj_lines.len().max(ev.obj_upto[i]);
+        while sent < upto {
+            let _ = ask(&ev.labeller.obj_lines[sent]);
+            sent += 1;
+        }
+        out.push(ask(&format!("recover 4096 56 48 12 {rle}")));
+    }
+    out
+}
+
+// ---------------------------------------------------------------------------------------------
+// labelling: byte-level recording → symbolic cells + object environment for the Lean model
+
+pub fn cell(obj: u32, idx: u32) -> u64 { ((obj as u64) << 32) | idx as u64 }
+
+pub struct Labeller {
+    intern: std::collections::HashMap<[u8; 32], u32>,
+    /// `obj …` request lines for the driver, in creation order
+    pub obj_lines: Vec<String>,
+    described: BTreeSet<u32>,
+    pub bytes: FsSim,
+    pub cells: CellSim,
+}
+
+fn b3raw(b: &[u8]) -> [u8; 32] { *blake3::hash(b).as_bytes() }
+
+impl Labeller {
+    pub fn new(initial: &FsSim) -> Labeller {
+        let mut l = Labeller { intern: Default::default(), obj_lines: vec![], described: BTreeSet::new(), bytes: initial.clone(), cells: CellSim::default() };
+        // pre-existing files (nested recordings): label the complete images; same inode numbering
+        for ino in 0..initial.inodes.len() {
+            let c = l.label_image(&initial.inodes[ino].data);
+            l.cells.inodes.push(Inode { data: c.clone(), durable: c, unsynced: vec![] });
+        }
+        l.cells.dir = initial.dir.clone();
+        l.cells.durable_dir = initial.durable_dir.clone();
+        l
+    }
+    pub fn id_of(&mut self, h: [u8; 32]) -> u32 {
+        let n = self.intern.len() as u32 + 1;
+        *self.intern.entry(h).or_insert(n)
+    }
+    pub fn lookup_hex(&self, hexsum: &str) -> Option<u32> {
+        let v = hex::decode(hexsum).ok()?;
+        let a: [u8; 32] = v.try_into().ok()?;
+        self.intern.get(&a).copied()
+    }
+    fn obj_cells(id: u32, len: usize) -> Vec<u64> { (0..len as u32).map(|k| cell(id, k)).collect() }
+    fn describe(&mut self, id: u32, line: String) {
+        if self.described.insert(id) {
+            self.obj_lines.push(format!("obj {id} {line}"));
+        }
+    }
+
+    /// label a complete file image found on disk (initial state of a nested recording): header, log
+    /// records, every valid commit footer with the TOC it names, the payloads those TOCs list; the
+    /// rest is opaque (one background object per 4 KiB page)
+    pub fn label_image(&mut self, d: &[u8]) -> Vec<u64> {
+        let mut c = vec![0u64; d.len()];
+        let put = |c: &mut Vec<u64>, off: usize, cells: Vec<u64>| {
+            for (k, v) in cells.into_iter().enumerate() { if off + k < c.len() { c[off + k] = v; } }
+        };
+        for (pg, chunk) in d.chunks(4096).enumerate() {
+            if chunk.iter().any(|b| *b != 0) {
+                let id = self.id_of(b3raw(&[chunk, &(pg as u64).to_le_bytes()[..]].concat()));
+                for (k, b) in chunk.iter().enumerate() { if *b != 0 { c[pg * 4096 + k] = cell(id, k as u32); } }
+            }
+        }
+        if d.len() >= 4096 && d.starts_with(b"MV2\0") {
+            let cells = self.label_write_plain(d, 0, &d[..4096], None);
+            put(&mut c, 0, cells);
+            let wal_size = le64(d, 24) as usize;
+            let mut cur = 0usize;
+            while cur + 48 <= wal_size && 4096 + cur + 48 <= d.len() {
+                let h = &d[4096 + cur..4096 + cur + 48];
+                let seq = le64(h, 0);
+                let len = u32::from_le_bytes(h[8..12].try_into().unwrap()) as usize;
+                if seq == 0 && len == 0 { break; }
+                if len == 0 || cur + 48 + len > wal_size || 4096 + cur + 48 + len > d.len() { break; }
+                let recb = &d[4096 + cur..4096 + cur + 48 + len];
+                if b3raw(&recb[48..]) != h[16..48] { break; }
+                let cells = self.label_record(recb);
+                put(&mut c, 4096 + cur, cells);
+                cur += 48 + len;
+            }
+            let mut e = 0usize;
+            while e + 56 <= d.len() {
+                if &d[e..e + 8] == b"MV2FOOT!" {
+                    let tl = le64(d, e + 8) as usize;
+                    if tl >= 1 && tl <= e && b3raw(&d[e - tl..e]) == d[e + 16..e + 48] {
+                        let tocb = d[e - tl..e].to_vec();
+                        let cells = self.label_toc(d, &tocb);
+                        put(&mut c, e - tl, cells);
+                        let fc = self.label_write_plain(d, e as u64, &d[e..e + 56], None);
+                        put(&mut c, e, fc);
+                        if let Ok(toc) = memvid_core::types::Toc::decode(&tocb) {
+                            for f in &toc.frames {
+                                let (o, n) = (f.payload_offset as usize, f.payload_length as usize);
+                                if n > 0 && o + n <= d.len() && b3raw(&d[o..o + n]) == f.checksum {
+                                    let id = self.id_of(f.checksum);
+                                    put(&mut c, o, Self::obj_cells(id, n));
+                                }
+                            }
+                            if let Some(sk) = &toc.sketch_track {
+                                let o = sk.bytes_offset as usize;
+                                if sk.bytes_length >= 24 && o + 24 <= d.len() && d[o..o + 4] == *b"MVSK" {
+                                    let id = self.id_of(b3raw(&d[o..o + 24]));
+                                    put(&mut c, o, Self::obj_cells(id, 24));
+                                }
+                            }
+                        }
+                        e += 56;
+                        continue;
+                    }
+                }
+                e += 1;
+            }
+        }
+        c
+    }
+
+    fn label_record(&mut self, recb: &[u8]) -> Vec<u64> {
+        let seq = le64(recb, 0);
+        let id = self.id_of(b3raw(recb));
+        let desc = match memvid_core::memvid::mutation::verif_wal_entry_info(&recb[48..]) {
+            Some((1, ph, plen, _t, sup, reuse)) => {
+                let sum = self.id_of(ph);
+                let plen = if reuse.is_some() { 0 } else { plen };
+                format!("rec {seq} {} ins {sum} {plen} {}", recb.len(), sup.map(|x| x.to_string()).unwrap_or_else(|| "-".into()))
+            }
+            Some((2, _, _, t, _, _)) => format!("rec {seq} {} tomb {}", recb.len(), t.unwrap_or(u64::MAX)),
+            _ => format!("rec {seq} {} lex", recb.len()),
+        };
+        self.describe(id, desc);
+        Self::obj_cells(id, recb.len())
+    }
+
+    fn label_toc(&mut self, file: &[u8], tocb: &[u8]) -> Vec<u64> {
+        let id = self.id_of(b3raw(tocb));
+        let desc = match memvid_core::types::Toc::decode(tocb) {
+            Ok(toc) => {
+                let frames: Vec<String> = toc.frames.iter().map(|f| {
+                    let st = match f.status { FrameStatus::Active => 0, FrameStatus::Superseded => 1, FrameStatus::Deleted => 2 };
+                    format!("{}:{}:{}:{}", f.payload_offset, f.payload_length, self.id_of(f.checksum), st)
+                }).collect();
+                let mut segs = vec![];
+                if let Some(sk) = &toc.sketch_track {
+                    // what `open` checks first is the 24-byte track header (magic)
+                    let o = sk.bytes_offset as usize;
+                    if sk.bytes_length >= 24 {
+                        let hid = if o + 24 <= file.len() && file[o..o + 4] == *b"MVSK" { self.id_of(b3raw(&file[o..o + 24])) } else { u32::MAX - 1 };
+                        segs.push(format!("{}:24:{}", sk.bytes_offset, hid));
+                    }
+                }
+                format!("toc {} {} {}", tocb.len(), if frames.is_empty() { "-".into() } else { frames.join(",") }, if segs.is_empty() { "-".into() } else { segs.join(",") })
+            }
+            Err(_) => format!("toc {} - -", tocb.len()),
+        };
+        self.describe(id, desc);
+        Self::obj_cells(id, tocb.len())
+    }
+
+    /// cells of one write that is not a copy.  `file_before` = content of the inode before the write
+    fn label_write_plain(&mut self, file_before: &[u8], off: u64, data: &[u8], next_footer_toc_len: Option<u64>) -> Vec<u64> {
+        if data.iter().all(|b| *b == 0) {
+            return vec![0u64; data.len()];
+        }
+        if off == 0 && data.len() == 4096 && data.starts_with(b"MV2\0") {
+            let id = self.id_of(b3raw(data));
+            self.describe(id, format!("hdr {} {} {}", le64(data, 8), le64(data, 24), le64(data, 40)));
+            return Self::obj_cells(id, data.len());
+        }
+        if data.len() == 56 && data.starts_with(b"MV2FOOT!") {
+            let id = self.id_of(b3raw(data));
+            let toc_id = self.id_of(data[16..48].try_into().unwrap());
+            self.describe(id, format!("foot {toc_id} {}", le64(data, 8)));
+            return Self::obj_cells(id, 56);
+        }
+        let wal_size = if file_before.len() >= 4096 && file_before.starts_with(b"MV2\0") { le64(file_before, 24) } else { 0 };
+        if wal_size > 0 && off >= HEADER_SIZE && off < HEADER_SIZE + wal_size && data.len() >= 49 {
+            let len = u32::from_le_bytes(data[8..12].try_into().unwrap()) as usize;
+            if len >= 1 && 48 + len <= data.len() && b3raw(&data[48..48 + len]) == data[16..48] {
+                let mut cells = self.label_record(&data[..48 + len]);
+                let rest = &data[48 + len..];
+                if rest.iter().all(|b| *b == 0) {
+                    cells.extend(std::iter::repeat(0u64).take(rest.len()));
+                } else {
+                    let id = self.id_of(b3raw(rest));
+                    cells.extend(Self::obj_cells(id, rest.len()));
+                }
+                return cells;
+            }
+        }
+        if next_footer_toc_len == Some(data.len() as u64) {
+            return self.label_toc(file_before, data);
+        }
+        let id = self.id_of(b3raw(data));
+        Self::obj_cells(id, data.len())
+    }
+
+    /// advance both simulations by recorded op `i` of `rec`
+    pub fn step(&mut self, rec: &Recording, i: usize) {
+        let s = &rec.ops[i];
+        let c: SysC = match s {
+            SysT::Write { ino, off, data } => {
+                let cells = if let Some((sino, soff)) = rec.copies.get(&i) {
+                    let src = &self.cells.inodes[*sino].data;
+                    (0..data.len()).map(|k| src.get(*soff as usize + k).copied().unwrap_or(0)).collect()
+                } else {
+                    let next_footer = match rec.ops.get(i + 1) {
+                        Some(SysT::Write { ino: i2, data: d2, off: o2 }) if i2 == ino && d2.len() == 56 && d2.starts_with(b"MV2FOOT!") && *o2 == off + data.len() as u64 => Some(le64(d2, 8)),
+                        _ => None,
+                    };
+                    let before = self.bytes.inodes[*ino].data.clone();
+                    self.label_write_plain(&before, *off, data, next_footer)
+                };
+                SysT::Write { ino: *ino, off: *off, data: cells }
+            }
+            SysT::Create { name, ino } => SysT::Create { name: name.clone(), ino: *ino },
+            SysT::Trunc { ino, len } => SysT::Trunc { ino: *ino, len: *len },
+            SysT::Fsync { ino } => SysT::Fsync { ino: *ino },
+            SysT::Rename { from, to } => SysT::Rename { from: from.clone(), to: to.clone() },
+            SysT::Unlink { name } => SysT::Unlink { name: name.clone() },
+            SysT::FsyncDir => SysT::FsyncDir,
+            SysT::Mark(m) => SysT::Mark(m.clone()),
+        };
+        self.bytes.apply(s);
+        self.cells.apply(&c);
+    }
+}
+
+/// run-length encoding of a cell image for the driver
+pub fn rle_cells(c: &[u64]) -> String {
+    if c.is_empty() { return "-".into(); }
+    let mut out: Vec<String> = vec![];
+    let mut i = 0;
+    while i < c.len() {
+        if c[i] == 0 {
+            let mut j = i;
+            while j < c.len() && c[j] == 0 { j += 1; }
+            out.push(format!("z:{}", j - i));
+            i = j;
+        } else {
+            let (id, st) = (c[i] >> 32, c[i] & 0xffff_ffff);
+            let mut j = i + 1;
+            while j < c.len() && c[j] != 0 && (c[j] >> 32) == id && (c[j] & 0xffff_ffff) == st + (j - i) as u64 { j += 1; }
+            out.push(format!("{id}:{st}:{}", j - i));
+            i = j;
+        }
+    }
+    out.join(",")
+}
+
+/// error text of the real open → the model's failure stage
+pub fn stage_of_error(e: &str) -> &'static str {
+    let l = e.to_lowercase();
+    if l.contains("wal") { "wal" }
+    else if l.contains("table of contents") || l.contains("toc") { "toc" }
+    else if l.contains("sketch") || l.contains("memories") || l.contains("logic mesh") || l.contains("segment") { "segment" }
+    else if l.contains("overlap") || l.contains("payload extends") { "overlap" }
+    else if l.contains("header") || l.contains("magic") || l.contains("version") { "header" }
+    else { "other" }
+}
+
+/// canonical comparison line of a real observation, in the driver's `recover` answer format (without
+/// the replay counter and the via-scan flag, which only the model knows)
+pub fn obs_model_line(o: &Obs, lab: &Labeller) -> String {
+    if !o.ok { return format!("fail {}", stage_of_error(&o.err)); }
+    let items: Vec<String> = o.frames.iter().map(|f| {
+        let st = match f.status { 'a' => 0, 's' => 1, _ => 2 };
+        let sum = lab.lookup_hex(&f.sum).map(|x| x.to_string()).unwrap_or_else(|| "?".into());
+        format!("{st}:{sum}:{}", if f.content.starts_with("err:") { "E" } else { "R" })
+    }).collect();
+    format!("ok {}", if items.is_empty() { "-".into() } else { items.join(",") })
+}
+
+/// normalise the driver's answer to the same shape
+pub fn model_line(ans: &str) -> String {
+    let w: Vec<&str> = ans.split(' ').collect();
+    if w.first() == Some(&"fail") {
+        let st = w.get(1).copied().unwrap_or("?");
+        return format!("fail {}", st.split('@').next().unwrap_or(st));
+    }
+    if w.first() == Some(&"ok") && w.len() >= 4 { return format!("ok {}", w[3]); }
+    ans.to_string()
 }
